@@ -93,7 +93,7 @@ func c05NewWorld(r *mrand.Rand, info string) *c05World {
 	w.tr = &funcTransceiver{f: w.card.Transceive}
 	w.nfc = iso7816.NewNfcSession(w.tr)
 	if sel, err := w.nfc.SelectAid(chipsim.LDS1AID); err != nil || !sel {
-		fw.Bug("SelectAid failed on simulated chip: %v", err)
+		fw.LibFail("select-aid-failed", "SelectAid failed on the conforming simulated chip: %v", err)
 	}
 	return w
 }
@@ -246,7 +246,7 @@ func c05Hostile(k *fw.K, i int, kind string, bit int) {
 		}
 		bac.NewBAC(w0.nfc, &document.Document{}, pw).DoBAC()
 		if replayed == nil {
-			fw.Bug("could not capture a genuine BAC answer for replay")
+			fw.LibFail("bac-genuine-run-failed", "a genuine BAC run (needed to capture an answer for the replay case) failed")
 		}
 	}
 	expectGenuine := false
